@@ -16,13 +16,13 @@ EDF_SHOUP_LIMIT = 200
 # gf_edf_zassenhaus over GF(2) runs a loop of 2**(deg-1) modular squarings per random trial
 # (as its sympy original); equal-degree blocks beyond this degree are only given to the Shoup family.
 P2_BLOCK_LIMIT = 8
-# VERIF_C23_REPORT_KNOWN=all (or a comma list of 01,02,03,04) disables the narrow exclusions of the
-# recorded findings KF-C23-01..04 (used to show that the check rediscovers each of them on the
-# unchanged tree and that a fixed tree passes).
-_jk = os.environ.get("VERIF_C23_REPORT_KNOWN", "")
-JUDGE_KNOWN = {"01", "02", "03", "04"} if _jk in ("1", "all") else {x for x in _jk.split(",") if x}
-if "02" in JUDGE_KNOWN:
-    EDF_SHOUP_LIMIT = 10 ** 9
+# Tags of the recorded findings (known_findings.json "matcher" names, GUIDE "Known findings protocol").
+# An exclusion applies only while its tag is active (the finding's reproducer still fails on the tree
+# under test); otherwise the inputs are generated and judged normally.
+T01 = "gf_zero_plus_int"          # KF-C23-01 zero polynomial +/- integer stays zero
+T02 = "gf_trace_map_frobenius"    # KF-C23-02 _gf_trace_map applies Frobenius the wrong way round
+T03 = "gf_div_by_multiple_of_p"   # KF-C23-03 division by an integer that is 0 in GF(p) does not throw
+T04 = "gf_get_coeff_zero_poly"    # KF-C23-04 get_coeff(0) of the zero polynomial reads out of bounds
 
 
 class Bad(Exception):
@@ -123,11 +123,9 @@ class Prog:
 
     # ---- expectation builders: fn(raw result) -> None | ("skip", reason) | complaint
     def value(self, rec, name, desc, exp, known=None, obs=True):
-        """the op must return exactly exp.  known=(tag, alt): the input triggers a recorded
-        defect; the result is not judged (counted as skipped)"""
+        """the op must return exactly exp.  known="tag:what" (from C23.kn, None while the tag is
+        inactive): the input triggers a recorded defect; the result is not judged (counted as skipped)"""
         p = self.p
-        if known is not None and known[7:9] in JUDGE_KNOWN:
-            known = None
 
         def fn(r):
             if is_exc(r):
@@ -158,10 +156,9 @@ class Prog:
 
     def custom(self, rec, name, desc, judge, known_exc=None):
         """judge(decoded value) -> None | ("skip", why) | complaint.
-        known_exc=(exception class, tag): that exception is a recorded finding on this input"""
+        known_exc=(exception class, "tag:what") (None while the tag is inactive): that exception is a
+        recorded finding on this input"""
         p = self.p
-        if known_exc is not None and known_exc[1][7:9] in JUDGE_KNOWN:
-            known_exc = None
 
         def fn(r):
             if is_exc(r):
@@ -301,15 +298,20 @@ class C23(Check):
                    "gf_edf_shoup / gf_shoup on blocks of N irreducibles of degree n with p odd, n>=2 and p**(n-1)*N > %d, and "
                    "their spurious DivisionByZeroError for n>=3 (KF-C23-02); division by an "
                    "integer that is a non-zero multiple of p (KF-C23-03); get_coeff(0) of the zero polynomial "
-                   "(KF-C23-04). VERIF_C23_REPORT_KNOWN=all judges them (replays/known/C23-*.json)" % EDF_SHOUP_LIMIT,
+                   "(KF-C23-04). Each exclusion applies only while its tag (gf_zero_plus_int, gf_trace_map_frobenius, "
+                   "gf_div_by_multiple_of_p, gf_get_coeff_zero_poly) is active, i.e. while its reproducer in "
+                   "replays/known/C23-*.json still fails" % EDF_SHOUP_LIMIT,
                    "not judged (counted as skipped): modulus of degree < 1 in gf_compose_mod / gf_pow_mod(n=0), "
                    "gf_is_sqf / gf_sqf_part of the zero polynomial, GF(2) equal-degree blocks of total degree > %d for the "
                    "Zassenhaus family (its loop is 2**(deg-1) long, slowness is not a violation), operands over "
                    "different moduli (only no-crash)" % P2_BLOCK_LIMIT]
     # one example = one random polynomial triple or one constructed factorisation, about 60 judged operations
     tiers = {"quick": {"examples": 320}, "thorough": {"examples": 24000}}
-    case_timeout = 60 if "02" not in JUDGE_KNOWN else 3000   # KF-C23-02 needs minutes to overflow the stack
-    timeout = 60.0 if "02" not in JUDGE_KNOWN else 3000.0
+    case_timeout = 60
+
+    def kn(self, tag, what):
+        """skip label of a recorded finding while its tag is active, else None (= judge normally)"""
+        return "%s:%s" % (tag, what) if self.tag_active(tag) else None
 
     # ------------------------------------------------------------ enumeration
     def enumerate(self, tier):
@@ -346,6 +348,8 @@ class C23(Check):
             return self.judge_rand(case)
         if k == "fac":
             return self.judge_fac(case)
+        if k == "probe":
+            return self.judge_probe(case)
         raise RuntimeError("unknown case kind")
 
     # -- binary operations
@@ -421,9 +425,9 @@ class C23(Check):
         P.value(["gf_empty", rf], "empty", d, n == 0, obs=False)
         P.value(["gf_is_one", rf], "is_one", d, f == [1], obs=False)
         for i in (0, n // 2, max(n - 1, 0), n, n + 3):
-            if n == 0 and i == 0 and "04" not in JUDGE_KNOWN:
+            if n == 0 and i == 0 and self.tag_active(T04):
                 # get_coeff(0) of the zero polynomial indexes an empty vector (finding KF-C23-04)
-                self.skip("known:KF-C23-04:get_coeff(0)_of_zero")
+                self.skip("known:%s" % T04)
                 continue
             P.value(["gf_get_coeff", rf, i], "get_coeff", "%s, %d" % (d, i), f[i] if i < n else 0, obs=False)
         for e in pows:
@@ -451,19 +455,19 @@ class C23(Check):
         for c in ints:
             dc = "%s, %d" % (d, c)
             cp = c % p
-            known = "KF-C23-01:zero+int" if (not f and cp != 0) else None
+            known = self.kn(T01, "zero+int") if (not f and cp != 0) else None
             P.value(["gf_add_int", rf, c], "add_int", dc, G.add(f, [cp] if cp else [], p), known)
             P.value(["gf_sub_int", rf, c], "sub_int", dc, G.sub(f, [cp] if cp else [], p), known)
             P.value(["gf_mul_int", rf, c], "mul_int", dc, G.scal(f, cp, p))
             P.value(["gf_from_int", c, p], "from_int", "%d" % c, [cp] if cp else [])
             if abs(c) < 2 ** 31:
                 P.value(["gf_from_cint", c, p], "from_cint", "%d" % c, [cp] if cp else [])
-            if c == 0 or (cp == 0 and "03" in JUDGE_KNOWN):
+            if c == 0 or (cp == 0 and not self.tag_active(T03)):
                 P.throws(["gf_quo_int", rf, c], "quo_int", dc)
                 P.throws(["gf_rem_int", rf, c], "rem_int", dc)
             elif cp == 0:
-                P.ask(["gf_quo_int", rf, c], "quo_int", dc, lambda r: ("skip", "known:KF-C23-03:div_by_multiple_of_p"))
-                P.ask(["gf_rem_int", rf, c], "rem_int", dc, lambda r: ("skip", "known:KF-C23-03:div_by_multiple_of_p"))
+                P.ask(["gf_quo_int", rf, c], "quo_int", dc, lambda r: ("skip", "known:%s" % T03))
+                P.ask(["gf_rem_int", rf, c], "rem_int", dc, lambda r: ("skip", "known:%s" % T03))
             else:
                 P.value(["gf_quo_int", rf, c], "quo_int", dc, G.scal(f, G.inv(cp, p), p))
                 P.value(["gf_rem_int", rf, c], "rem_int", dc, [])
@@ -604,25 +608,27 @@ class C23(Check):
                     return "returned %s, expected the set %s" % (got, want)
                 return None
             return j
-        slow = any(p != 2 and k >= 2 and len(v) >= 2 and p ** (k - 1) * len(v) > EDF_SHOUP_LIMIT for k, v in groups.items())
-        hit = shoup_compose_hit(g, p) and "01" not in JUDGE_KNOWN
+        kf02 = self.tag_active(T02)
+        slow = kf02 and any(p != 2 and k >= 2 and len(v) >= 2 and p ** (k - 1) * len(v) > EDF_SHOUP_LIMIT
+                            for k, v in groups.items())
+        hit = self.tag_active(T01) and shoup_compose_hit(g, p)
         P.custom(["gf_ddf_zassenhaus", rg], "gf_ddf_zassenhaus", dg, j_ddf)
         if p2slow:
             self.skip("slow:GF(2)_edf_zassenhaus_block>%d" % P2_BLOCK_LIMIT)
         else:
             P.custom(["gf_zassenhaus", rg], "gf_zassenhaus", dg, j_set([list(t) for t in irr]))
         if hit:
-            self.skip("known:KF-C23-01:ddf_shoup_compose", 2)
+            self.skip("known:%s:ddf_shoup_compose" % T01, 2)
         else:
             P.custom(["gf_ddf_shoup", rg], "gf_ddf_shoup", dg, j_ddf)
             if slow:
-                self.skip("known:KF-C23-02:edf_shoup_unbounded")
+                self.skip("known:%s:edf_shoup_unbounded" % T02)
             else:
                 # with n >= 3 the broken trace map can also hand the zero polynomial to gf_frobenius_map,
                 # which then throws DivisionByZeroError (same finding)
                 spur = any(p != 2 and k >= 3 and len(v) >= 2 for k, v in groups.items())
                 P.custom(["gf_shoup", rg], "gf_shoup", dg, j_set([list(t) for t in irr]),
-                         ("DivisionByZeroError", "KF-C23-02:edf_shoup_spurious_throw") if spur else None)
+                         ("DivisionByZeroError", T02 + ":edf_shoup_spurious_throw") if (spur and kf02) else None)
         for k, v in sorted(groups.items()):
             e = ddf_exp[k]
             re_ = P.poly(e) if len(groups) > 1 else rg
@@ -631,12 +637,12 @@ class C23(Check):
                 self.skip("slow:GF(2)_edf_zassenhaus_block>%d" % P2_BLOCK_LIMIT)
             else:
                 P.custom(["gf_edf_zassenhaus", re_, k], "gf_edf_zassenhaus", de, j_set(v))
-            if p != 2 and k >= 2 and len(v) >= 2 and p ** (k - 1) * len(v) > EDF_SHOUP_LIMIT:
-                self.skip("known:KF-C23-02:edf_shoup_unbounded")
+            if kf02 and p != 2 and k >= 2 and len(v) >= 2 and p ** (k - 1) * len(v) > EDF_SHOUP_LIMIT:
+                self.skip("known:%s:edf_shoup_unbounded" % T02)
             else:
                 P.custom(["gf_edf_shoup", re_, k], "gf_edf_shoup", de, j_set(v),
-                         ("DivisionByZeroError", "KF-C23-02:edf_shoup_spurious_throw")
-                         if (p != 2 and k >= 3 and len(v) >= 2) else None)
+                         ("DivisionByZeroError", T02 + ":edf_shoup_spurious_throw")
+                         if (kf02 and p != 2 and k >= 3 and len(v) >= 2) else None)
 
     def judge_unary(self, case):
         p = case["p"]
@@ -660,7 +666,7 @@ class C23(Check):
             d = "mod %s; g=%s, h=%s" % (f, g, hv)
             if df >= 1:
                 exp = G.compose_mod(g, hv, f, p)
-                known = "KF-C23-01:compose_mod" if G.compose_hits_zero_plus_const(g, hv, f, p) else None
+                known = self.kn(T01, "compose_mod") if G.compose_hits_zero_plus_const(g, hv, f, p) else None
                 P.value(["gf_compose_mod", rf, rg, rh], "gf_compose_mod", d, exp, known)
             else:
                 P.nocrash(["gf_compose_mod", rf, rg, rh], "gf_compose_mod", d)
@@ -697,7 +703,10 @@ class C23(Check):
                 if exp != [G.pow_mod(a, p ** n, f, p), s]:
                     raise RuntimeError("trace map reference inconsistent")
                 P.value(["gf_trace_map", rf, ra, rb, rc, n], "gf_trace_map", "mod %s; a=%s, b=x^p, c=x, n=%d" % (f, a, n),
-                        exp, "KF-C23-01:trace_map_compose" if hit else None)
+                        exp, self.kn(T01, "trace_map_compose") if hit else None)
+                # _gf_trace_map(a, n) = a + a**p + ... + a**(p**(n-1)) mod f; n = 1 is the identity
+                P.value(["gf_trace_map_frob", rf, ra, n], "_gf_trace_map", "mod %s; a=%s, n=%d" % (f, a, n),
+                        G.sub(s, G.pow_mod(a, p ** n, f, p), p), self.kn(T02, "_gf_trace_map") if n >= 2 else None)
 
     def judge_mod(self, case):
         p = case["p"]
@@ -732,6 +741,23 @@ class C23(Check):
         # operands over different fields: anything but a crash is accepted
         q = 3 if p != 3 else 5
         P.nocrash(["gf_add", ra, P.poly(case["b"], q)], "mixed_modulus", "p=%d,q=%d" % (p, q))
+        P.run()
+
+    # -- minimal reproducers of single recorded findings (replays/known/C23-*.json); never excluded
+    def judge_probe(self, case):
+        p = case["p"]
+        P = Prog(self, p, 1)
+        z = P.poly([])
+        if case["what"] == "zero_plus_int":
+            for c in (1, 3, -1, p + 2):
+                cp = c % p
+                P.value(["gf_add_int", z, c], "add_int", "[], %d" % c, [cp] if cp else [])
+                P.value(["gf_sub_int", z, c], "sub_int", "[], %d" % c, [(-c) % p] if cp else [])
+        elif case["what"] == "get_coeff_zero":
+            P.value(["gf_get_coeff", z, 0], "get_coeff", "[], 0", 0, obs=False)
+            P.value(["gfb_get_coeff", ["gfb_from_vec", "x", vec([]), p], 0], "gfb_get_coeff", "[], 0", 0, obs=False)
+        else:
+            raise RuntimeError("unknown probe")
         P.run()
 
     # -- constructed factorisations
